@@ -532,6 +532,51 @@ fn sibling_blobs(a: &Attributes) -> Result<(Vec<Vec<u8>>, Vec<Vec<u8>>), String>
             return Err(format!("after the binary round trip class-mate #{k} holds attributes that are not its own ({} bytes re-encoded, its own {} bytes)", got.len(), own.len()));
         }
     }
+    // ... also when an EARLIER class-mate holds a blob the attribute reader rejects (kept by the binary reader as a
+    // BinaryString): the later class-mates' blobs are still decoded, each into its own map
+    {
+        let mut dom2 = WeakDom::new(InstanceBuilder::new("DataModel"));
+        let root2 = dom2.root_ref();
+        let bad: Vec<u8> = vec![1, 0, 0, 0, 1, 0, 0, 0, b'k', 0x01];
+        let mut roots2 = Vec::new();
+        roots2.push(dom2.insert(root2, InstanceBuilder::new("Folder").with_name("bad").with_property("Attributes", Variant::BinaryString(bad.clone().into()))));
+        roots2.push(dom2.insert(root2, InstanceBuilder::new("Folder").with_name("good").with_property("Attributes", Variant::Attributes(a.clone()))));
+        roots2.push(dom2.insert(root2, InstanceBuilder::new("Folder").with_name("prev").with_property("Attributes", Variant::Attributes(sibling_prev()))));
+        let mut buf2 = Vec::new();
+        if rbx_binary::Serializer::new().compression_type(rbx_binary::CompressionType::None).serialize(&mut buf2, &dom2, &roots2).is_ok() {
+            let back = rbx_binary::from_reader(buf2.as_slice()).map_err(|e| format!("binary reader (file with one undecodable attribute blob): {e}"))?;
+            let kids = back.root().children();
+            if kids.len() == 3 {
+                if !matches!(decode(&bad), Dec::Ok(_)) {
+                    for (k, own) in [(1usize, a.clone()), (2usize, sibling_prev())] {
+                        match back.get_by_ref(kids[k]).and_then(|i| i.properties.get(&rbx_dom_weak::ustr("Attributes"))) {
+                            Some(Variant::Attributes(m)) => {
+                                let e1 = encode(m).ok().and_then(|r| r.ok()).unwrap_or_default();
+                                let e2 = encode(&own).ok().and_then(|r| r.ok()).unwrap_or_default();
+                                let norm = |b: &[u8]| match decode(b) {
+                                    Dec::Ok(m) => encode(&m).ok().and_then(|r| r.ok()).unwrap_or_default(),
+                                    _ => b.to_vec(),
+                                };
+                                if norm(&e1) != norm(&e2) {
+                                    return Err(format!("class-mate #{k} of an instance with an undecodable attribute blob holds attributes that are not its own"));
+                                }
+                            }
+                            Some(other) => {
+                                if !own.iter().next().is_none() || k == 2 {
+                                    return Err(format!("class-mate #{k} of an instance with an undecodable attribute blob is read back with {:?} instead of its decoded attribute map", other.ty()));
+                                }
+                            }
+                            None => {
+                                if own.iter().next().is_some() {
+                                    return Err(format!("class-mate #{k} of an instance with an undecodable attribute blob lost its attributes"));
+                                }
+                            }
+                        }
+                    }
+                }
+            }
+        }
+    }
     // XML: one AttributesSerialize element per Item that has the property (f3 has none: an absent element counts as zero bytes)
     let mut xbuf = Vec::new();
     rbx_xml::to_writer_default(&mut xbuf, &dom, &roots).map_err(|e| format!("xml writer: {e}"))?;
